@@ -284,3 +284,280 @@ func ruleFixedPoolSizes(c *Check, a *Analysis, rule string) {
 }
 
 var _ = token.ADD
+
+// ruleResolveTotal (C12): no path through DialWithOptions bypasses option resolution.
+func ruleResolveTotal(c *Check, a *Analysis, rule string) {
+	p := c.P
+	c.Rule(rule, "every connection DialWithOptions returns comes from (*Conn).Dial with a codec constructor that reads the body-codec and header-encoder options (names and constructors); DefaultOptions pre-fills only constructor fields, never the name fields that take precedence over a constructor the user sets afterwards", 2)
+	dw := p.Fn("DialWithOptions")
+	if dw == nil {
+		c.Undecided(rule, "DialWithOptions not found")
+	} else {
+		eachInstr(dw, func(in ssa.Instruction) {
+			r, ok := in.(*ssa.Return)
+			if !ok || len(r.Results) == 0 || in.Parent() != dw {
+				return
+			}
+			for _, o := range p.origins(r.Results[0]) {
+				o = p.canon(o)
+				if nilConst(o) {
+					continue
+				}
+				good := false
+				why := describe(o)
+				var call *ssa.Call
+				if e, isE := o.(*ssa.Extract); isE {
+					call, _ = e.Tuple.(*ssa.Call)
+				}
+				if cc, isC := o.(*ssa.Call); isC {
+					call = cc
+				}
+				if call != nil && calleeName(call) == "(*Conn).Dial" {
+					// the constructor closure reads all four resolution fields
+					read := map[string]bool{}
+					for _, arg := range call.Common().Args {
+						if mc, isMC := p.canon(unwrap(p.canon(arg))).(*ssa.MakeClosure); isMC {
+							for _, f := range withClosures(mc.Fn.(*ssa.Function)) {
+								eachInstr(f, func(x ssa.Instruction) {
+									if v, isV := x.(ssa.Value); isV {
+										if fr, _, okf := fieldOfLoad(v); okf && fr.Struct == "Options" {
+											read[fr.Field] = true
+										}
+									}
+								})
+							}
+						}
+					}
+					good = read["Codec"] && read["NewCodec"] && read["HeaderEncoder"] && read["NewHeaderEncoder"]
+					if !good {
+						why = "a Dial whose codec constructor does not read Options.Codec/NewCodec/HeaderEncoder/NewHeaderEncoder"
+					}
+				}
+				c.Ob(rule, "DialWithOptions#returned connection went through option resolution", p.InstrPos(in), good, ifs(!good, "DialWithOptions returns a connection from "+why+": some options (header encoder, buffer size) are silently dropped on that path while the server still honours them — the two ends speak different wire formats"))
+			}
+		})
+	}
+	if do := p.Fn("DefaultOptions"); do == nil {
+		c.Undecided(rule, "DefaultOptions not found")
+	} else {
+		ok := true
+		what := ""
+		for _, f := range []string{"Network", "Codec", "HeaderEncoder"} {
+			for _, st := range p.fieldStoresIn(do, "Options", f) {
+				if k, isK := st.Val.(*ssa.Const); !isK || constStr(k) != `""` {
+					ok = false
+					what = f
+				}
+			}
+		}
+		c.Ob(rule, "DefaultOptions#no pre-filled names", do.Pos(), ok, ifs(!ok, "DefaultOptions pre-fills Options."+what+": a registered name wins over a constructor, so a constructor the user sets on top of the defaults is silently ignored on this end but honoured on an end configured without the defaults"))
+	}
+}
+
+// ruleWaiterPool (C18): a waiter's channel is drained before it is pooled, and the candidate
+// live-address list is not built inside the list it is compared with.
+func ruleWaiterPool(c *Check, a *Analysis, rule string) {
+	p := c.P
+	if _, ok := c.rules[rule]; !ok {
+		c.Rule(rule, "waiter recycling", 1)
+	}
+	sc := siteCounter{}
+	for _, fn := range p.Fns {
+		if recvName(topParent(fn)) != "Client" {
+			continue
+		}
+		for _, put := range callsIn(fn, "(*sync.Pool).Put") {
+			if !isLoadOfAddr(p, put.Common().Args[0], "Client", "donePool") {
+				continue
+			}
+			ch := p.canon(unwrap(put.Common().Args[1]))
+			drained := false
+			for _, rs := range callsIn(fn, "resetWaiterDone") {
+				if p.canon(rs.Common().Args[0]) == ch && p.dominatesInstr(rs.(ssa.Instruction), put.(ssa.Instruction)) {
+					drained = true
+				}
+			}
+			c.Ob(rule, sc.key(fn, "Done channel drained before pooling"), p.InstrPos(put), drained, ifs(!drained, "a waiter's Done channel goes back to the pool without being drained: a wake-up token that arrived together with the timeout stays in it and releases the next caller that parks on it at once (it fails with ErrDial, or is routed during a Fallback pause)"))
+		}
+	}
+	// check(): the freshly collected address list must not alias Client.last
+	for _, fn := range p.Fns {
+		if recvName(topParent(fn)) != "Client" {
+			continue
+		}
+		for _, st := range p.fieldStoresIn(fn, "Client", "last") {
+			alias := false
+			var walk func(v ssa.Value, d int)
+			walk = func(v ssa.Value, d int) {
+				if d == 0 || v == nil {
+					return
+				}
+				for _, o := range p.origins(v) {
+					o = p.canon(o)
+					switch x := o.(type) {
+					case *ssa.Slice:
+						if isLoadOf(p.canon(x.X), "Client", "last") {
+							alias = true
+						}
+						walk(x.X, d-1)
+					case *ssa.Call:
+						if calleeName(x) == "builtin append" {
+							walk(x.Call.Args[0], d-1)
+						}
+					}
+				}
+			}
+			walk(st.Val, 6)
+			c.Ob(rule, sc.key(fn, "new address list does not alias Client.last"), p.InstrPos(st), !alias, ifs(alias, "the list of live addresses is collected into the backing array of Client.last and then compared with it: a change that keeps the number of live targets is not noticed, dead targets keep receiving calls and recovered ones are never used"))
+		}
+	}
+}
+
+func isLoadOfAddr(p *Prog, v ssa.Value, st, field string) bool {
+	if fr, _, ok := fieldOfAddr(v); ok && fr.Struct == st && fr.Field == field {
+		return true
+	}
+	return isLoadOf(p.canon(v), st, field)
+}
+
+// ruleMarkDeadExact (C14/C19): only ErrShutdown retires a pooled connection.
+func ruleMarkDeadExact(c *Check, a *Analysis, rule string) {
+	p := c.P
+	if _, ok := c.rules[rule]; !ok {
+		c.Rule(rule, "a pooled connection is marked dead (and closed) only when the error is ErrShutdown", 1)
+	}
+	chk := p.Fn("checkPersistConnErr")
+	if chk == nil {
+		return
+	}
+	isShut := func(cond ssa.Value) (bool, bool) {
+		b, ok := cond.(*ssa.BinOp)
+		if !ok || (b.Op != token.EQL && b.Op != token.NEQ) {
+			return false, false
+		}
+		if isGlobalLoad(b.X, "ErrShutdown") || isGlobalLoad(b.Y, "ErrShutdown") {
+			return true, b.Op == token.EQL
+		}
+		return false, false
+	}
+	sc := siteCounter{}
+	for _, st := range p.fieldStoresIn(chk, "persistConn", "alive") {
+		if k, isK := st.Val.(*ssa.Const); !isK || constStr(k) != "false" {
+			continue
+		}
+		g, _ := p.guardedBy(st, isShut)
+		c.Ob(rule, sc.key(chk, "alive=false only for ErrShutdown"), p.InstrPos(st), g, ifs(!g, "a pooled connection is marked dead and closed for an error other than ErrShutdown (for instance a call's own context deadline): every other call in flight on the shared connection fails with it"))
+	}
+}
+
+// ruleAcceptExit (C20): an Accept error always ends the accept loop.
+func ruleAcceptExit(c *Check, a *Analysis, rule string) {
+	p := c.P
+	if _, ok := c.rules[rule]; !ok {
+		c.Rule(rule, "accept loop exit", 1)
+	}
+	lis := p.Fn("(*Server).listen")
+	if lis == nil {
+		return
+	}
+	sc := siteCounter{}
+	for _, f := range withClosures(lis) {
+		for _, ac := range invokesIn(f, "socket.Listener", "Accept") {
+			call, ok := ac.(*ssa.Call)
+			if !ok {
+				continue
+			}
+			errEdges, n := p.guardEdges(f, negate(matchErrOf(p, call)))
+			if n == 0 {
+				c.Ob(rule, sc.key(f, "Accept error ends the loop"), p.InstrPos(call), false, "the error of Accept is never tested")
+				continue
+			}
+			for e := range errEdges {
+				_, tr, loops := p.reachFromBlock(f, e.to, func(x ssa.Instruction) bool { return x == ssa.Instruction(call) }, nil, nil)
+				c.Ob(rule, sc.key(f, "Accept error ends the loop"), p.InstrPos(e.to.Instrs[0]), !loops, ifs(loops, "after a failed Accept the loop can call Accept again ("+p.lineTrail(tr)+"): a listener whose closure is reported by an error the loop tolerates never lets Listen return — Server.Close hangs the accept goroutine (busy-looping) and the deferred clean-up of accepted connections never runs"))
+			}
+		}
+	}
+}
+
+// ruleRefusalValue (C14): a connection that has shut down refuses with the ErrShutdown value itself.
+func ruleRefusalValue(c *Check, a *Analysis, rule string) {
+	p := c.P
+	if _, ok := c.rules[rule]; !ok {
+		c.Rule(rule, "refusal value", 1)
+	}
+	sd := p.Fn("(*Conn).send")
+	if sd == nil {
+		return
+	}
+	sc := siteCounter{}
+	refuse := func(cond ssa.Value) (bool, bool) {
+		if isLoadOf(p.canon(cond), "Conn", "shutdown") || isLoadOf(p.canon(cond), "Conn", "closing") {
+			return true, true
+		}
+		return false, false
+	}
+	edges, n := p.guardEdges(sd, refuse)
+	if n == 0 {
+		c.Ob(rule, sc.key(sd, "refusal stores ErrShutdown"), sd.Pos(), false, "send does not test Conn.shutdown / Conn.closing")
+		return
+	}
+	for _, st := range p.fieldStoresIn(sd, "Call", "Error") {
+		onRefusal := false
+		for e := range edges {
+			if _, _, found := p.reachFromBlock(sd, e.to, func(x ssa.Instruction) bool { return x == ssa.Instruction(st) }, func(x ssa.Instruction) bool {
+				op, ok := lockOpOf(x)
+				return ok && op.acquire
+			}, nil); found {
+				onRefusal = true
+			}
+		}
+		if !onRefusal {
+			continue
+		}
+		ok := isGlobalLoad(p.canon(st.Val), "ErrShutdown")
+		c.Ob(rule, sc.key(sd, "refusal stores ErrShutdown"), p.InstrPos(st), ok, ifs(!ok, "a call refused by a shut-down connection is given "+describe(st.Val)+" instead of the ErrShutdown value: the Transport recognises a dead pooled connection only by that value, so the connection is handed out for ever"))
+	}
+}
+
+// ruleFailedOpenUnregisters (C15/C03): a stream open that fails leaves nothing registered.
+func ruleFailedOpenUnregisters(c *Check, a *Analysis, rule string) {
+	p := c.P
+	if _, ok := c.rules[rule]; !ok {
+		c.Rule(rule, "failed stream open", 1)
+	}
+	ns := p.Fn("(*Conn).NewStream")
+	if ns == nil {
+		return
+	}
+	// the error of the open call: a load of Call.Error tested against nil
+	edges, n := p.guardEdges(ns, func(cond ssa.Value) (bool, bool) {
+		b, ok := cond.(*ssa.BinOp)
+		if !ok || (b.Op != token.EQL && b.Op != token.NEQ) {
+			return false, false
+		}
+		x, y := b.X, b.Y
+		if nilConst(x) {
+			x, y = y, x
+		}
+		if !nilConst(y) {
+			return false, false
+		}
+		for _, o := range p.origins(x) {
+			if isLoadOf(p.canon(o), "Call", "Error") {
+				return true, b.Op == token.NEQ
+			}
+		}
+		return false, false
+	})
+	if n == 0 {
+		c.Ob(rule, "(*Conn).NewStream#failed open is unregistered", ns.Pos(), false, "NewStream does not test the error of the open call")
+		return
+	}
+	for e := range edges {
+		_, tr, miss := p.reachFromBlock(ns, e.to, isReturnLike, func(x ssa.Instruction) bool {
+			return isCallTo(x, "(*stream).Close") || isCallTo(x, "(*Conn).closeStream")
+		}, nil)
+		c.Ob(rule, "(*Conn).NewStream#failed open is unregistered", p.InstrPos(e.to.Instrs[0]), !miss, ifs(miss, "a rejected stream open returns without the close round trip that removes its entries from Conn.pending and Conn.streams ("+p.lineTrail(tr)+"): NumCalls stays non-zero for ever and housekeeping never retires or closes the otherwise unused connection"))
+	}
+}
